@@ -216,7 +216,7 @@ def run_property(prop, tier, seed, only=None, verbose=False):
             for ob in obs:
                 ob.status, ob.backend = 'discharged', 'alternative mechanism: %s provides %r for case %s' % (
                     ', '.join(others), ob.label, case)
-            say("note: %s no longer provides %r for case %s, but %s still does (the property needs one of them)" % (
+            say("note: %s does not provide %r for case %s, but %s does (the property needs one of them)" % (
                 tn, obs[0].label, case, ', '.join(others)))
 
     seen_viol = set()
